@@ -5,6 +5,7 @@
 //   usage: shared_stress <threads> <iterations> <seed> <out.json>
 #include <occa.hpp>
 #include <occa/internal/utils/verif.hpp>
+#include <occa/internal/core/device.hpp>
 #include <pthread.h>
 #include <cstdio>
 #include <cstdlib>
@@ -19,8 +20,20 @@ static std::atomic<long> expectedBytes{0};
 static pthread_barrier_t barrier;
 static int rounds;
 static std::vector<occa::memory*> roundHandles;   // one heap handle per thread to the round's object
+static occa::device *devC = nullptr;              // phase C: a device that owns no buffer when the round starts
 
+static std::atomic<long> lostChildren{0}, survivors{0};
 struct Arg { int id; unsigned seed; };
+static const char *outPath = nullptr;
+static long baseBytes = 0;
+static void checkpoint() {
+  FILE *f = fopen(outPath, "w");
+  int alive = 0;
+  for (occa::memory &m : shared) if (m.isInitialized()) ++alive;
+  fprintf(f, "{\"phase\":\"AC\",\"liveMemory\":-1,\"liveBuffer\":-1,\"anomalies\":%ld,\"bytes\":0,\"expected\":0,\"sharedAlive\":%d,\"lostChildren\":%ld,\"survivors\":%ld}\n",
+          v::anomalies(), alive, lostChildren.load(), survivors.load());
+  fclose(f);
+}
 
 static unsigned rnd(unsigned &s) { s = s * 1103515245u + 12345u; return (s >> 16) & 0x7fff; }
 
@@ -43,6 +56,28 @@ static void *work(void *p) {
   for (occa::memory &m : blocks) { expectedBytes -= (long)m.byte_size(); m.free(); }
   blocks.clear();
   mine.clear();
+  // phase C: every thread creates the FIRST buffers of a fresh shared device at the same time; the
+  // device must then track all of them (its ring of buffers) and free() must release all of them
+  for (int r = 0; r < rounds; ++r) {
+    if (a->id == 0) devC = new occa::device({{"mode", "Serial"}});
+    pthread_barrier_wait(&barrier);
+    occa::memory *pm = new occa::memory(devC->malloc<char>(8));
+    pthread_barrier_wait(&barrier);
+    if (a->id == 0) {
+      const long tracked = (long)devC->getModeDevice()->memoryRing.length();
+      if (tracked != (long)roundHandles.size()) lostChildren += (long)roundHandles.size() - tracked;
+      devC->free();
+    }
+    pthread_barrier_wait(&barrier);
+    if (pm->isInitialized()) ++survivors;      // a buffer the device lost track of outlives device.free():
+    else delete pm;                            // its handle is deliberately leaked, touching it would be a use after free
+    pthread_barrier_wait(&barrier);
+    if (a->id == 0) { delete devC; devC = nullptr; }
+  }
+  // checkpoint: phase B below may kill the process (the recorded double destruction), so what phases A
+  // and C observed is written out first
+  if (a->id == 0) checkpoint();
+  pthread_barrier_wait(&barrier);
   // phase B: all handles of one object are destroyed at the same time, one per thread
   for (int r = 0; r < rounds; ++r) {
     pthread_barrier_wait(&barrier);          // thread 0 has set up roundHandles
@@ -62,7 +97,8 @@ int main(int argc, char **argv) {
   const int nthreads = atoi(argv[1]);
   iterations = atoi(argv[2]);
   const unsigned seed = (unsigned)atoi(argv[3]);
-  long result[6];
+  outPath = argv[4];
+  long result[8];
   {
     occa::device device({{"mode", "Serial"}});
     dev = &device;
@@ -94,11 +130,13 @@ int main(int argc, char **argv) {
     int alive = 0;
     for (occa::memory &m : shared) if (m.isInitialized()) ++alive;
     result[5] = alive;                          // must be nshared (nobody freed them)
+    result[6] = lostChildren.load();            // must be 0
+    result[7] = survivors.load();               // must be 0
     shared.clear();
   }
   FILE *f = fopen(argv[4], "w");
-  fprintf(f, "{\"liveMemory\":%ld,\"liveBuffer\":%ld,\"anomalies\":%ld,\"bytes\":%ld,\"expected\":%ld,\"sharedAlive\":%ld}\n",
-          result[0], result[1], result[2], result[3], result[4], result[5]);
+  fprintf(f, "{\"phase\":\"ACB\",\"liveMemory\":%ld,\"liveBuffer\":%ld,\"anomalies\":%ld,\"bytes\":%ld,\"expected\":%ld,\"sharedAlive\":%ld,\"lostChildren\":%ld,\"survivors\":%ld}\n",
+          result[0], result[1], result[2], result[3], result[4], result[5], result[6], result[7]);
   fclose(f);
   return 0;
 }
